@@ -254,12 +254,13 @@ func escapeDN(v string, st dnStyle) string {
 
 func dnCase(rdns []rdn, style dnStyle, tag string) {
 	parts := make([]string, len(rdns))
-	var dcs []string
+	var dcs, dcsEsc []string
 	hasEscComma, hasBackslashEnd := false, false
 	for i, x := range rdns {
 		parts[i] = x.typ + "=" + escapeDN(x.val, style)
 		if x.typ == "DC" {
 			dcs = append(dcs, x.val)
+			dcsEsc = append(dcsEsc, escapeDN(x.val, style))
 		} else {
 			if strings.Contains(x.val, ",") && !style.hexComma {
 				hasEscComma = true
@@ -271,6 +272,9 @@ func dnCase(rdns []rdn, style dnStyle, tag string) {
 	}
 	dn := strings.Join(parts, ",")
 	want := strings.Join(dcs, ".")
+	// a DC value holding a reserved character may be returned unescaped or as written (the
+	// property does not say which); it must not be cut or dropped
+	wantEsc := strings.Join(dcsEsc, ".")
 	var got string
 	p, pv, st := mon.Guard(func() { got = ldap.GetDomainFromDistinguishedName(dn) })
 	cs := map[string]any{"dn": dn, "rdns": fmt.Sprint(rdns), "expected": want}
@@ -299,7 +303,7 @@ func dnCase(rdns []rdn, style dnStyle, tag string) {
 	case hasEscComma:
 		cls = "escaped-comma"
 	}
-	if got != want {
+	if got != want && got != wantEsc {
 		r.Violation("ldap.GetDomainFromDistinguishedName:value:"+cls, fmt.Sprintf("DN %q: got %q want %q", dn, got, want), cs)
 	}
 	if len(rdns) >= 2 {
@@ -356,6 +360,9 @@ func dnWorkload() {
 		{{"OU", "only"}, {"O", "org"}},
 		{{"DC", "a"}, {"CN", "mid"}, {"DC", "b"}},
 		{{"CN", "DC=notadc"}, {"DC", "real"}},
+		{{"CN", "Users"}, {"DC", "a=b"}, {"DC", "example"}, {"DC", "com"}},
+		{{"DC", "=x"}, {"DC", "com"}},
+		{{"DC", "x="}, {"DC", "y=z=w"}},
 		{{"CN", "x=DC=y"}, {"DC", "real"}},
 		{{"CN", "line\nbreak,DC=evil"}, {"DC", "real"}},
 		{{"DC", "xn--80ak6aa92e"}, {"DC", "under_score"}, {"DC", "UPPER"}, {"DC", "9"}},
